@@ -32,7 +32,7 @@ ASSUMPTIONS = ["floats as reals", "the estimators called by the algorithm are th
 OUTSIDE = ["more windows than the bound", "find_peaks_kwargs", "rounding in the 0.01 convergence tests"]
 BOUNDS = {"quick": {"windows": "3-4", "frequencies": 3, "max_iterations": "1-3", "azimuths": 2},
           "thorough": {"windows": "3-5", "frequencies": "3-4", "max_iterations": "1-4", "azimuths": 2}}
-INSTANCE_TIMEOUT = {"quick": 240, "thorough": 1700}
+INSTANCE_TIMEOUT = {"quick": 160, "thorough": 1700}
 DPAIRS = [("lognormal", "lognormal"), ("normal", "normal"), ("lognormal", "normal"), ("normal", "lognormal")]
 _L = None
 
@@ -59,6 +59,9 @@ def instances(tier):
                     continue
                 out.append({"name": f"inner_w{w}_it{mi}_{dfn}_{dmc}", "func": "run_inner",
                             "kwargs": {"w": w, "nf": 3, "maxit": mi, "dfn": dfn, "dmc": dmc}})
+    # algorithm-level instances: the statistics of each accept state are arbitrary symbolic values (a superset of the real ones)
+    for w, mi in ([(3, 3), (4, 2), (4, 3)] if tier == "quick" else [(3, 3), (4, 2), (4, 3), (4, 4), (5, 3), (5, 4), (6, 3)]):
+        out.append({"name": f"abstract_w{w}_it{mi}", "func": "run_inner_abstract", "kwargs": {"w": w, "maxit": mi}})
     for dfn, dmc in DPAIRS[:2]:
         out.append({"name": f"perm_{dfn}", "func": "run_invariance", "kwargs": {"w": 3, "maxit": 2, "dfn": dfn, "dmc": dmc, "mode": "perm"}})
         out.append({"name": f"scale_{dfn}", "func": "run_invariance", "kwargs": {"w": 3, "maxit": 2, "dfn": dfn, "dmc": dmc, "mode": "scale"}})
@@ -216,6 +219,74 @@ def run_inner(rep, tier, w, nf, maxit, dfn, dmc):
             spec["instance"] = rep.name
             rep.validation(spec)
             rep.sample({"n": spec["n"], "peak_frq": spec["peak_frq"], "maxit": maxit, "returned": got[1], "mask": spec["expect"]["mask"]})
+
+
+class AbstractHvsr:
+    """Duck-typed stand-in for the object the inner routine works on: the statistics of every accept state are free symbolic
+    values (memoised per mask, shared between the object handed to the code and the reference's shadow)."""
+
+    def __init__(self, ctx, w, tables):
+        self.ctx, self.n_curves, self.tables = ctx, w, tables
+        self.valid_window_boolean_mask = np.ones(w, dtype=bool)
+        self.valid_peak_boolean_mask = np.ones(w, dtype=bool)
+        self._main_peak_frq = tables["peaks"]
+        self.meta = {}
+
+    def _state(self):
+        key = tuple(bool(x) for x in self.valid_peak_boolean_mask)
+        t = self.tables["states"]
+        if key not in t:
+            tag = "".join("1" if b else "0" for b in key)
+            mean, std, mc = Sym.var(f"mean_{tag}", self.ctx, pos=True), Sym.var(f"std_{tag}", self.ctx, lo=0), Sym.var(f"mc_{tag}", self.ctx, pos=True)
+            t[key] = (mean, std, mc)
+        return t[key]
+
+    def mean_fn_frequency(self, distribution="normal"):
+        return self._state()[0]
+
+    def std_fn_frequency(self, distribution="normal"):
+        return self._state()[1]
+
+    def mean_curve_peak(self, distribution="normal"):
+        return self._state()[2], Sym(z3.RealVal(1))
+
+    def nth_std_fn_frequency(self, n, distribution="normal"):
+        m, s_, _ = self._state()
+        return m + s_ * n
+
+
+def run_inner_abstract(rep, tier, w, maxit):
+    WR = L()["window_rejection"]
+
+    def run(ctx):
+        tables = {"states": {}, "peaks": np.array([Sym.var(f"pf{i}", ctx, pos=True) for i in range(w)], dtype=object)}
+        h, g = AbstractHvsr(ctx, w, tables), AbstractHvsr(ctx, w, tables)
+        n = Sym.var("n", ctx, pos=True)
+        entry = h.valid_window_boolean_mask.copy()
+        got = outcome(lambda: WR._frequency_domain_window_rejection(h, n=n, max_iterations=maxit, distribution_fn="normal", distribution_mc="normal"))
+        want = outcome(lambda: reference_fdwra(g, n, maxit, "normal", "normal"))
+        return tables, h, g, n, entry, got, want
+
+    for ctx, (tables, h, g, n, entry, got, want) in rep.explore(run, max_paths=2500 if tier == "quick" else 40000, timeout_ms=5000):
+        def W(m):
+            val = concretiser(m)
+            return {"kind": "abstract", "w": w, "maxit": maxit, "n": val(n), "peaks": [val(x) for x in tables["peaks"]],
+                    "states": {"".join("1" if b else "0" for b in k): [val(x) for x in v] for k, v in tables["states"].items()}}
+        same = bool(np.array_equal(h.valid_window_boolean_mask, g.valid_window_boolean_mask)) and (got == want or got[0] == want[0] != "ret")
+        mono = not bool(np.any(h.valid_window_boolean_mask & ~entry))
+        for label, ok, key in (("algorithm level: decisions and iteration count equal the published algorithm's for arbitrary per-state statistics", same, "abstract-algorithm"),
+                               ("algorithm level: never re-accepts a window", mono, "monotone")):
+            rep.obligations += 1
+            if ok:
+                rep.discharged += 1
+            else:
+                r, m = ctx.model()
+                if r == z3.sat:
+                    spec = W(m)
+                    spec["engine_got"], spec["engine_want"] = str(got), str(want)
+                    rep.candidate(spec, f"{label}: code {got} {h.valid_window_boolean_mask.tolist()} vs reference {want} {g.valid_window_boolean_mask.tolist()}", key=key)
+        if len(rep.samples) < 2:
+            rep.sample({"windows": w, "max_iterations": maxit, "returned": got[1] if got[0] == "ret" else got[0], "mask": h.valid_window_boolean_mask.tolist()})
 
 
 def run_invariance(rep, tier, w, maxit, dfn, dmc, mode):
@@ -407,6 +478,40 @@ def replay(spec):
     from hvsrpy import window_rejection as WR
     if spec["kind"] == "outer":
         return {"reproduced": True, "key": "outer-" + spec["what"], "detail": "structural obligation on the real source (no concrete input needed)"}
+    if spec["kind"] == "abstract":
+        class Stub:
+            def __init__(s_):
+                s_.n_curves = spec["w"]
+                s_.valid_window_boolean_mask = np.ones(spec["w"], dtype=bool)
+                s_.valid_peak_boolean_mask = np.ones(spec["w"], dtype=bool)
+                s_._main_peak_frq = np.array(spec["peaks"], dtype=float)
+                s_.meta = {}
+
+            def _st(s_):
+                return spec["states"]["".join("1" if b else "0" for b in s_.valid_peak_boolean_mask)]
+
+            def mean_fn_frequency(s_, d="normal"):
+                return s_._st()[0]
+
+            def std_fn_frequency(s_, d="normal"):
+                return s_._st()[1]
+
+            def mean_curve_peak(s_, d="normal"):
+                return s_._st()[2], 1.0
+
+            def nth_std_fn_frequency(s_, n, d="normal"):
+                return s_._st()[0] + n * s_._st()[1]
+        try:
+            h, g = Stub(), Stub()
+            got = _out(lambda: WR._frequency_domain_window_rejection(h, n=spec["n"], max_iterations=spec["maxit"], distribution_fn="normal", distribution_mc="normal"))
+            want = _out(lambda: _py_reference(g, spec["n"], spec["maxit"], "normal", "normal"))
+        except KeyError as e:
+            return {"reproduced": False, "detail": f"concrete run reached an accept state the symbolic path did not ({e})"}
+        if not np.array_equal(h.valid_window_boolean_mask, g.valid_window_boolean_mask) or not (got == want or got[0] == want[0] != "ret"):
+            return {"reproduced": True, "key": "abstract-algorithm",
+                    "detail": f"real inner routine on an object with per-state statistics {spec['states']} (fn peaks {spec['peaks']}, n={spec['n']}, max_iterations={spec['maxit']}): "
+                              f"{got} {h.valid_window_boolean_mask.tolist()} vs published algorithm {want} {g.valid_window_boolean_mask.tolist()}"[:600]}
+        return {"reproduced": False, "detail": "agree on the stub object"}
     if spec["kind"] == "e2e":
         frq = np.array(spec["frequency"], dtype=float)
 
